@@ -78,7 +78,7 @@ OP_CLASSES = {
 }
 ALL_OPS = sorted({o for v in OP_CLASSES.values() for o in v})
 
-step_vals = st.lists(st.one_of(st.integers(-3, 9), st.integers(-3, 9), st.sampled_from([None, 2.5, "s", True, 1j])), max_size=4)
+step_vals = st.lists(st.one_of(st.integers(-3, 9), st.integers(-3, 9), st.sampled_from([None, 2.5, "s", True, 1j, float("nan")])), max_size=4)
 
 
 @st.composite
@@ -278,6 +278,17 @@ class World:
             # the last column holds days, one of them missing (date -> datetime promotion inside a table)
             cols[names[-1]] = [None if i == step[1] % n else _date(2020, 1, 1 + (i % 27)) for i in range(n)]
         si.info.update(cols=cols)
+        if step[3] % 3 == 1 and n:
+            # the first column is handed over as one of the caller-owned tuples (vectors built over it may be alive):
+            # the table must own its columns all the same
+            kk = step[1] % 2
+            if kk not in self.tuples or len(self.tuples[kk][0]) != n:
+                self.tuples[kk] = (tuple(cols[names[0]]), self.new_token())
+            tup = self.tuples[kk][0]
+            cols[names[0]] = list(tup)
+            si.info["caller_tuple"] = True
+            self._result(si, self._do(si, lambda: S.Table({nm: (tup if nm == names[0] else list(v)) for nm, v in cols.items()})), "fresh")
+            return si
         self._result(si, self._do(si, lambda: S.Table({nm: list(v) for nm, v in cols.items()})), "fresh")
         return si
 
@@ -800,12 +811,24 @@ class World:
         return self._vwrite("set_mask", step, key_of)
 
     def op_set_index(self, step):
+        holder = {}
+
         def key_of(n):
             if not n:
                 return (0,), 1, None
             idx = [step[2] % n, step[3] % n]
+            if step[3] % 3 == 2:
+                # the positions come as an int vector the program keeps (negative positions included): a bystander of the write
+                kv = S.Vector([idx[0] - n, idx[1]])
+                holder["entry"] = self.add(kv, "fresh")
+                holder["values"] = [idx[0] - n, idx[1]]
+                return kv, 2, None
             return (idx if step[3] % 2 else tuple(idx)), 2, None
-        return self._vwrite("set_index", step, key_of)
+        si = self._vwrite("set_index", step, key_of)
+        if si is not None and holder.get("entry") is not None:
+            si.operands.append(holder["entry"])
+            si.info["key_vector"] = (holder["entry"].id, [idx_ for idx_ in holder["values"]])
+        return si
 
     def _twrite(self, name, step, make):
         a = self.pick(step[1], "table")
